@@ -185,7 +185,7 @@ def body_factory(ctx):
                     ll_file = np.asarray(tj_.TheJoker(pr_b).marginal_ln_likelihood(db, fn), dtype=float)
                 nb_ = len(B["ll"])
                 for half in (ll_file[:nb_], ll_file[nb_:]):
-                    if half.shape != B["ll"].shape or np.any(np.abs(half - B["ll"]) > 1e-6 * (1 + np.abs(B["ll"]))):
+                    if half.shape != B["ll"].shape or not np.all(np.abs(half - B["ll"]) <= 1e-6 * (1 + np.abs(B["ll"]))):
                         raise Violation("a library appended in other (equivalent) units does not hold the same physical "
                                         "samples", base=B["ll"][:5], from_file=half[:5])
                 ctx.classes["append in other units accepted and consistent"] += 1
@@ -441,12 +441,12 @@ def extreme_body_factory(ctx):
             llA, outA = sample(A, case)
         with ctx.sut("sampling the same problem in %s (best ln-likelihood %.1f)" % (case["unit"], target + shift_unit)):
             llB, outB = sample(Bsp, case)
-        if abs(float(llA.max()) - target) > 1e-4 * (abs(target) + n * abs(math.log(g)) + abs(float(ll0.max())) + 1):
+        if not (abs(float(llA.max()) - target) <= 1e-4 * (abs(target) + n * abs(math.log(g)) + abs(float(ll0.max())) + 1)):
             raise Violation("rescaling every velocity by g does not move the ln-likelihood by -n ln g", g=g, n=n,
                             before=float(ll0.max()), after=float(llA.max()), expected=target)
         dev = np.abs((llB - shift_unit) - llA)
         # (coarse: the round-off model of the likelihood is applied by the 'twins' search; here only gross failures count)
-        if np.any(dev > 1e-3 * (1 + np.abs(llA))):
+        if not np.all(dev <= 1e-3 * (1 + np.abs(llA))):
             raise Violation("marginal ln-likelihood is not invariant (up to the Jacobian) under a change of units", worst=float(dev.max()))
         PA, PB = outA["P"].to_value(u.day), outB["P"].to_value(u.day)
         if not (len(PA) == len(PB) and np.allclose(PA, PB, rtol=1e-12, atol=0)):
